@@ -3,13 +3,14 @@ PID = 'C10'
 SPEC = dict(
     driver='c10_schema',
     extra=['ref/ref.c', 'ref/ref_sig.c', 'ref/ref_pdu.c', 'ref/ref_pki.c', 'ref/ref_schema.c', 'simnet.c'],
-    rule='Bounded-exhaustive mutation enumeration, nothing sampled. Base objects: 8 signatures (every tail form, RFC3161 record, legacy-id / metadata / imprint '
-         'links, aggregation authentication record, input data, publication references and uris), 12 aggregation PDUs and 8 extension PDUs (v1 and v2 requests, '
-         'responses with signature bodies / calendar chains, status-only responses, error PDUs, configuration and acknowledgment payloads), 3 publications files '
-         '(test PKI). A single case (s:) is one base x one tree position (every node of the TLV tree, expanded wherever the reference schema says the element is a '
+    rule='Bounded-exhaustive mutation enumeration, nothing sampled. Base objects (33): 8 signatures (every tail form, RFC3161 record, legacy-id / metadata / imprint '
+         'links, aggregation authentication record, input data, publication references and uris), 12 aggregation PDUs and 10 extension PDUs (v1 and v2 requests, '
+         'responses with signature bodies / calendar chains incl. left-links-only and right-link-only chains, status-only responses, error PDUs, configuration and acknowledgment '
+         'payloads), 3 publications files (test PKI). A single case (s:) is one base x one tree position (every node of the TLV tree, expanded wherever the reference schema says the element is a '
          'container) x one operator: delete, duplicate, duplicate with the N flag, swap with next sibling, move first / last, retag to every other tag of the '
          'container alphabet and to an unknown tag, each other (N,F) flag combination, shrink / grow the payload by one byte, insert an unknown element '
-         '(critical / non-critical / non-critical+forward) before and (non-critical) after it, and per value type: integers (leading zero, 00, 9 bytes, empty, '
+         '(critical / non-critical / non-critical+forward) before and (non-critical) after it, add a valid sample of every element of the container alphabet after it '
+         '(schema-aware construction: combines exclusive alternatives, repeats single-valued elements with other content, breaks section order), and per value type: integers (leading zero, 00, 9 bytes, empty, '
          '8 bytes), strings (no terminator, embedded NUL, lone continuation, lead without / with too few continuations, lead followed by ASCII, ff, fe, valid 2/3/4 byte '
          'forms, overlong, f5 lead, zero length, empty), imprints (algorithm 03 / 06 / 0c / 7e / ff, length -1 / +1, empty, algorithm byte only, other valid algorithms), '
          'legacy ids (length 28 / 30, each fixed byte, string length 26 / ff, non-zero padding, 25 and 0 character names), octet strings (empty). A pair case (p:) is one base x '
@@ -21,10 +22,10 @@ SPEC = dict(
          'KSI_Signature_serialize returns the input bytes, and the internal verification verdict equals that of the base unless the element lies in hashed content. '
          'Distinct = distinct case name; non-trivial = at least one parser verdict was compared with the reference schema.',
     bounds=dict(
-        quick='single operators on 8 bases (2 signatures, v1 aggregation request, v2 aggregation response with configuration and acknowledgment, v2 aggregation request, '
-              'v1 and v2 extension responses, full publications file): every position x every operator; every base parsed unmodified',
-        thorough='single operators on all 31 bases; operator pairs (reduced set of 13 operator kinds, both operators in the same container) on 15 bases '
-                 '(4 signatures, 5 aggregation PDUs, 4 extension PDUs, 2 publications files)'),
+        quick='every base parsed unmodified; single operators on all 33 bases: every tree position x every operator (about 27.5 k mutated trees)',
+        thorough='as quick, plus operator pairs on all 33 bases: first operator from the reduced set (delete, duplicate, duplicate+N, swap, move first / last, retag to the next alphabet '
+                 'tag and to the unknown tag, set N, insert unknown critical / non-critical, first invalid value of the value type) at every position x second operator from the full '
+                 'set at every child of the same container (about 5.4 M mutated trees)'),
     technique='bounded-exhaustive tree-mutation enumeration on the compiled parsers (ASan/UBSan, exactly sized heap input), verdict compared with an independent declarative schema table',
     level_text='Every (base object, tree position, operator) triple of a stated finite catalogue - and every same-container operator pair on a subset - is run through the real typed '
                'parsers (KSI_Signature_parseWithPolicy with the empty policy, KSI_AggregationPdu_parse, KSI_ExtendPdu_parse with the PDU version option, KSI_PublicationsFile_parse) and '
